@@ -881,6 +881,9 @@ def reader_seek_cases(prefix, kinds, rng=None):
                 else:
                     c.op("hseek", h, k, v)
             c.op("hreadtoend", h)
+            # the drained handle sits at its end: the next read is empty, a second drain too, relative seeks start there
+            c.op("hreadn", h, 3); c.op("hseek", h, "c", 0); c.op("hreadtoend", h)
+            c.op("hseek", h, "c", -4); c.op("hreadtoend", h); c.op("hseek", h, "e", 0)
             c.op("hdrop", h)
             c.op("snap", t)
             cases.append(c)
